@@ -11,7 +11,7 @@ META = dict(
               'generator of every case; the real jj_cli::text_util functions replay every case and TLC judges every output',
     text='TLC enumerates every text over {ASCII, wide CJK, combining mark, zero-width} up to 4 (quick) / 5 (thorough) characters x '
          'every width 0..5 (0..7) x 5 ellipses (empty, 1 narrow, 2 narrow, 1 wide, zero-width+narrow+wide), every text with spaces up '
-         'to 5 (6) characters for wrapping, and texts with control characters / ZWJ / VS16 sequences up to 2 (3) characters; it proves '
+         'to 4 (6) characters for wrapping, and texts with control characters / ZWJ / VS16 sequences up to 2 (3) characters; it proves '
          'that the transcribed elide_start/end, write_truncated_start/end, write_padded_start/end/centered and first-fit wrap meet the '
          'contracts: output never wider than requested (a single over-wide word excepted for wrap), reported width = real width, made '
          'of whole characters of the ellipsis and the text in place (every output character is traced to its source position; a '
@@ -46,7 +46,7 @@ def self_test(ctx, recs):
     """Corrupted outputs the judge must reject: one column too wide, a wide character split off, a text that fits changed,
     padding one short, a wrapped line that breaks inside a word."""
     def first(pred):
-        return copy.deepcopy(next(x for x in recs if pred(x)))
+        return copy.deepcopy(next(x for x in recs if x["op"] == "case" and pred(x)))
     a = first(lambda x: x["kind"] == "shorten" and x["t"] == ["a", "W", "a", "a"] and x["e"] == ["a"] and x["w"] == 3)
     a["ee"] = [[["t", 1], ["t", 2], ["e", 1]], 4]          # exceeds the width by one
     b = first(lambda x: x["kind"] == "shorten" and x["t"] == ["a", "W", "a", "a"] and x["e"] == [] and x["w"] == 3)
@@ -86,11 +86,12 @@ def run(ctx):
     recs = j["records"]
     if len(recs) != len(cases):
         raise vf.ToolError("harness wrote %d records for %d cases" % (len(recs), len(cases)))
-    self_test(ctx, recs)
+    if not ctx.violations:      # anti-vacuity of the judge; pointless (and short of clean records) once the run has failed
+        self_test(ctx, recs)
     ctx.cov["exhaustive"] = True
     ctx.cov["exhaustive_domain"] = ("all texts over {a, W, m, z} with <= %d chars x widths 0..%d x 5 ellipses; all texts over {a, W, m, space} "
                                     "with <= %d chars x the same widths (wrap); all texts over {a, W, control, emoji, ZWJ, symbol, VS16} with "
-                                    "<= %d chars x 3 ellipses (known-finding classes)" % ctx.q((4, 5, 5, 2), (5, 7, 6, 3)))
+                                    "<= %d chars x 3 ellipses (known-finding classes)" % ctx.q((4, 5, 4, 2), (5, 7, 6, 3)))
     ctx.cov["cases_by_kind"] = {k: sum(1 for x in cases if x["kind"] == k) for k in ("shorten", "wrap", "differ")}
     ctx.cov["rule"] = ("cases = TLC's state space of MC_TextWidth (kind, text, ellipsis, width), each replayed through the real text_util "
                        "functions (4 shortening functions, 3 padding functions with the empty ellipsis, wrap_bytes + write_wrapped); "
